@@ -78,6 +78,8 @@ type Sim struct {
 	timeSens  bool          // a sleep/timer exists in this run
 	Stalls    int
 	TimeJumps int
+	sinceAdv  int // scheduling steps since fake time last advanced
+	Forced    int // forced time advances (a spinning task must not freeze the clock)
 	Switches  int // context switches (resumed task != previous task)
 	Trace     []StepRec
 	KeepTrace bool
@@ -479,6 +481,16 @@ func (s *Sim) Run() string {
 				return EndQuiescent
 			}
 			s.TimeJumps++
+			s.sinceAdv = 0
+			continue
+		}
+		// computing takes time: a task that spins without ever blocking must not freeze the fake clock for the
+		// sleepers and timers of the run. Deterministic rule, not a tape decision.
+		if s.timeSens && s.sinceAdv >= 400 {
+			s.sinceAdv = 0
+			s.Forced++
+			s.idleWait(100 * time.Millisecond)
+			s.Logf("forced time advance -> t=%v", s.Now())
 			continue
 		}
 		if s.StallOK && s.timeSens {
@@ -502,6 +514,7 @@ func (s *Sim) Run() string {
 		}
 		t := cands[s.Tape.pick(s, cands)]
 		s.Steps++
+		s.sinceAdv++
 		t.Steps++
 		if s.current != t {
 			s.Switches++
